@@ -570,7 +570,8 @@ def read (bs : Bytes) : Option Module := do
     if pp = 0 then some none
     else match patBlock bs pp with
       | none => none
-      | some (rows, d) => some (if rows > 1024 then none else some (rows, d))
+      | some (rows, d) => if rows = 0 then none   -- `libxmp_alloc_track` refuses 0 rows: load error
+                          else some (if rows > 1024 then none else some (rows, d))
   let maxCh := blocks.foldl (fun (mx : Nat) blk => match blk with
     | none => mx
     | some (rows, d) => scanGo (d.length + 1) d rows (List.replicate 64 0) mx) 0
